@@ -1631,7 +1631,8 @@ class Interp:
         if name in ("np.result_type", "np.promote_types", "np.dtype"):
             return "<dtype>"         # an opaque dtype value
         if name in ("np.zeros_like", "np.ones_like", "np.copy", "np.array",
-                    "np.asarray") and args and isinstance(args[0], AArr):
+                    "np.asarray", "np.real_if_close") and args \
+                and isinstance(args[0], AArr):
             return args[0]
         if name in ("np.zeros_like", "np.ones_like", "np.copy", "np.array",
                     "np.asarray", "np.atleast_1d") and args \
